@@ -144,7 +144,12 @@ def run(ctx):
     for label, a in atoms.items():
         red = call(a, "__reduce__")
         ok = isinstance(red, tuple) and len(red) == 2
-        back = I.call(red[0], list(red[1]), {}) if ok else None
+        back = None
+        if ok:
+            try:
+                back = I.call(red[0], list(red[1]), {})
+            except SymRaise as exc:
+                back = f"raises {exc.exc}"
         ctx.check(back is a, "R3", f"{label}: __reduce__ followed by its restorer returns the same object",
                   f"restores {back!r} with identity {ident(back) if isinstance(back, SymObj) else back} instead of {ident(a)}",
                   fsite(ctx, "core._make_isotope_ion"))
@@ -156,7 +161,7 @@ def run(ctx):
                   f"{label}: change_table to another table gives that table's atom with the same Z, A and charge",
                   f"got {ident(moved) if isinstance(moved, SymObj) else moved}, expected {want}", fsite(ctx, "core.change_table"))
         red2 = call(moved, "__reduce__")
-        ctx.check(I.call(red2[0], list(red2[1]), {}) is moved, "R3", f"{label}: an atom of a private table is restored into that table",
+        ctx.check(raises(lambda: I.call(red2[0], list(red2[1]), {})) is None and I.call(red2[0], list(red2[1]), {}) is moved, "R3", f"{label}: an atom of a private table is restored into that table",
                   "restored elsewhere", fsite(ctx, "core._get_table"))
     rr = raises(lambda: I.call(I.global_name("core", "_get_table"), ["nosuch"], {}))
     ctx.check(rr == "ValueError", "R3", "restoring into an unknown table raises", f"{rr}", fsite(ctx, "core._get_table"))
